@@ -162,3 +162,24 @@ func TestVerifC06_StoredFragment(t *testing.T) {
 		}
 	})
 }
+
+// DP15: when the primary translate store changed to "none" (this node became the coordinator) and later to another node,
+// handlePrimaryStoreEvent closed the same channel twice; the panic is raised in the store's own goroutine, so a sequence
+// of well-formed SetCoordinator / ClusterStatus messages stopped the server.
+func TestVerifWitness_DP15(t *testing.T) {
+	s := NewTranslateFile()
+	s.Path = filepath.Join(t.TempDir(), "keys")
+	if err := s.Open(); err != nil {
+		t.Fatal(err)
+	}
+	defer s.Close()
+	for _, id := range []string{"node-a", "", "node-b", "", ""} {
+		var ts TranslateStore
+		if id != "" {
+			ts = newNopTranslateStore(nil)
+		}
+		if pv := vc06Try(func() { s.handlePrimaryStoreEvent(primaryStoreEvent{id: id, ts: ts}) }); pv != nil {
+			t.Fatalf("changing the primary translate store to %q panics: %v", id, pv)
+		}
+	}
+}
